@@ -436,6 +436,9 @@ class FunTrans:
         if isinstance(st, ast.AugAssign):
             if not isinstance(st.target, ast.Name) or type(st.op) not in BINOPS:
                 raise Untranslatable("augmented assignment")
+            if st.target.id in self.params:
+                # `p += x` on a parameter mutates the CALLER's object when it is a list / bytearray; values are immutable in MiniPy
+                raise Untranslatable("augmented assignment to parameter %s (in-place mutation of the caller's object for mutable arguments)" % st.target.id)
             return "(SAug %s %s %s)" % (cstr(st.target.id), BINOPS[type(st.op)], E(st.value))
         if isinstance(st, ast.If):
             return "(SIf %s %s %s)" % (E(st.test), self.block(st.body, loops), self.block(st.orelse, loops))
